@@ -1372,6 +1372,36 @@ pub fn variants_for(h: &Honest, other: Option<&Honest>, rng: &mut Rng, thorough:
             w.proof.content = Some(schema::proof::Content::NextSecret(nk.sk.clone()));
             a.w(11, "extended by the holder, third-party block", true, &root, &w);
         }
+        // the same extension with an external signature that covers something else than the v1 external payload:
+        // the legacy payload (block payload, algorithm and bytes of the previous next key -- a key the holder
+        // chooses), the payload alone, the v1 payload without the previous signature.  The block signature is
+        // the holder's and correct; the token must not verify.
+        {
+            let ek = adv_p.clone();
+            let nk = adv_ed.clone();
+            let pk = blk(base, nb - 1).next_key.clone();
+            let mut legacy = scratch.clone();
+            legacy.extend(&(pk.algorithm as i32).to_le_bytes());
+            legacy.extend(&pk.key);
+            for (label, msg) in [
+                ("the legacy external payload (previous next key)", legacy),
+                ("the payload alone", scratch.clone()),
+                ("the v1 external payload without the previous signature", payload_external_v1(&scratch, &[], 1)),
+            ] {
+                let es = ek.sign(&msg);
+                let mut w = base.clone();
+                let sig = fin.sign(&msg_block(&scratch, &nk.pk, Some(&es), &prev, 1));
+                w.blocks.push(schema::SignedBlock {
+                    block: scratch.clone(),
+                    next_key: wkey(&nk.pk),
+                    signature: sig,
+                    external_signature: Some(schema::ExternalSignature { signature: es, public_key: wkey(&ek.pk) }),
+                    version: Some(1),
+                });
+                w.proof.content = Some(schema::proof::Content::NextSecret(nk.sk.clone()));
+                a.w(6, &format!("extended by the holder, third-party block whose external signature covers {}", label), true, &root, &w);
+            }
+        }
         // 10 the final secret used at the wrong place
         for i in 0..nb {
             let prev_i = if i == 0 { vec![] } else { blk(base, i - 1).signature.clone() };
